@@ -314,9 +314,10 @@ def run(chk, repo, tier):
     rule_R2(chk, repo)
     rule_R3(chk, repo)
     rule_R4(chk, repo)
+    rule_R5(chk, repo)
     chk.undecided += ['equality of the compiled graph/MPO with the sum of padded chains as operators '
                       '(needs the invariant of the bipartite repartition, not a code shape)',
-                      'accumulation of duplicate chains in the gamma dictionary']
+                      'that accumulation in the gamma dictionary is complete (decided: the accumulate / initialise idiom)']
     chk.trust('Python semantics of list/tuple operations; ast of /repo/pytenet')
     return ('Static rules over opgraph.OpGraph.from_opchains, opgraph._site_partition_halfchains, '
             'mpo.MPO.from_opgraph and opchain.OpChain.padded: id typestate (path-sensitive), coefficient taint '
@@ -324,3 +325,75 @@ def run(chk, repo, tier):
             'structural clauses only, not operator equality.',
             'rule instances are syntactic sites (allocation sites, tainted variables, consumers of the layer '
             'ordering, list-length equations); distinct = distinct keys (rule|function|construct)')
+
+
+def rule_R5(chk, repo, rid='C05.R5'):
+    """accumulation idioms: repeated chains / parallel edges / repeated operators add up, they do not overwrite"""
+    chk.rule(rid, 'accumulation: a repeated (U, V) pair adds its coefficient to gamma (the first occurrence initialises it); '
+                  'MPO.from_opgraph adds the operators of parallel edges into the same tensor block; OpGraphEdge merges '
+                  'repeated operator ids by adding their coefficients; equality and hash of half-chains use the same fields')
+    n = 0
+    fi = repo.func('opgraph._site_partition_halfchains')
+    T = Taint(repo, fi, ['coeffs'], None)
+    dup = [s for s in ast.walk(fi.node) if isinstance(s, ast.If) and isinstance(s.test, ast.Compare) and
+           isinstance(s.test.ops[0], ast.In) and norm(s.test.comparators[0]) == 'edges']
+    ok = False
+    detail = 'duplicate test `edge in edges` not found'
+    if len(dup) == 1:
+        t, f = dup[0].body, dup[0].orelse
+        acc = [x for x in t if isinstance(x, ast.AugAssign) and isinstance(x.op, ast.Add) and
+               isinstance(x.target, ast.Subscript) and T.expr_tainted(x.value)]
+        ini = [x for x in f if isinstance(x, ast.Assign) and isinstance(x.targets[0], ast.Subscript) and
+               T.expr_tainted(x.value)]
+        reg = [x for x in ast.walk(ast.Module(body=f, type_ignores=[])) if isinstance(x, ast.Call) and
+               isinstance(x.func, ast.Attribute) and x.func.attr == 'append' and norm(x.func.value) == 'edges']
+        same = bool(acc) and bool(ini) and norm(acc[0].target) == norm(ini[0].targets[0])
+        ok = same and bool(reg)
+        detail = f'duplicate branch: {[norm(x) for x in t][:2]}; first occurrence: {[norm(x) for x in f][:3]}'
+    chk.ob(rid, where(repo, fi, dup[0] if dup else fi.node), '_site_partition_halfchains: a repeated pair accumulates its '
+           'coefficient, the first occurrence registers the edge and initialises it', ok, detail, key=f'{rid}|gamma')
+    n += 1
+    fi = repo.func('mpo.MPO.from_opgraph')
+    st = [s for s in ast.walk(fi.node) if isinstance(s, (ast.Assign, ast.AugAssign)) and
+          isinstance((s.targets[0] if isinstance(s, ast.Assign) else s.target), ast.Subscript) and
+          'opmap' in norm(s.value)]
+    ok = len(st) == 1 and isinstance(st[0], ast.AugAssign) and isinstance(st[0].op, ast.Add)
+    chk.ob(rid, where(repo, fi, st[0] if st else fi.node), 'from_opgraph: operators of parallel edges are added into the tensor '
+           'block (not overwritten)', ok, norm(st[0])[:90] if st else 'store not found', key=f'{rid}|parallel-edges')
+    n += 1
+    if st:
+        v = st[0].value
+        b = None
+        from ..match import pmatch
+        b = pmatch('sum((__c * opmap[__i] for __i, __c in __e.opics))', v) or \
+            pmatch('sum((opmap[__i] * __c for __i, __c in __e.opics))', v)
+        chk.ob(rid, where(repo, fi, st[0]), 'from_opgraph: the block is the coefficient-weighted sum of the edge operators', b is not None,
+               norm(v)[:80], key=f'{rid}|weighted-sum')
+        n += 1
+    for q in ('opgraph.OpGraphEdge.__init__', 'opgraph.OpGraphEdge.add'):
+        fi = repo.func(q)
+        from ..match import find
+        hits = find('__L.append((__i, __c + __d))', fi.node)
+        srt = [s for s in ast.walk(fi.node) if isinstance(s, ast.Assign) and norm(s.targets[0]) == 'self.opics' and
+               norm(s.value) == 'sorted(self.opics)']
+        chk.ob(rid, where(repo, fi, fi.node), f'{fi.name.strip("_")} of OpGraphEdge: a repeated operator id keeps one entry with '
+               f'the summed coefficient; the list stays sorted', len(hits) == 1 and len(srt) == 1, '', key=f'{rid}|{q}')
+        n += 1
+    ci = repo.cls('OpHalfchain')
+    init_fields = sorted({t.attr for s in ast.walk(ci.methods['__init__'].node) if isinstance(s, ast.Assign)
+                          for t in s.targets if isinstance(t, ast.Attribute) and norm(t.value) == 'self'})
+    eq_fields = sorted({a.attr for a in ast.walk(ci.methods['__eq__'].node) if isinstance(a, ast.Attribute) and
+                        norm(a.value) == 'self'})
+    hash_fields = sorted({a.attr for a in ast.walk(ci.methods['__hash__'].node) if isinstance(a, ast.Attribute) and
+                          norm(a.value) == 'self'})
+    chk.ob(rid, where(repo, ci.methods['__eq__'], ci.methods['__eq__'].node), 'OpHalfchain: equality and hash use all and the same '
+           'fields (set lookup and list lookup agree)', init_fields == eq_fields == hash_fields,
+           f'fields {init_fields}; compared {eq_fields}; hashed {hash_fields}', key=f'{rid}|halfchain-eq-hash')
+    cu = repo.cls('UNode')
+    uf = sorted({t.attr for s in ast.walk(cu.methods['__init__'].node) if isinstance(s, ast.Assign)
+                 for t in s.targets if isinstance(t, ast.Attribute) and norm(t.value) == 'self'})
+    ue = sorted({a.attr for a in ast.walk(cu.methods['__eq__'].node) if isinstance(a, ast.Attribute) and
+                 norm(a.value) == 'self'})
+    chk.ob(rid, where(repo, cu.methods['__eq__'], cu.methods['__eq__'].node), 'UNode: equality compares every field (operator, both '
+           'quantum numbers, left node)', uf == ue, f'fields {uf}; compared {ue}', key=f'{rid}|unode-eq')
+    chk.floor(rid, n + 2, 7)
